@@ -497,6 +497,87 @@ def _function_pure(fn: ast.FunctionDef, module_safe: typing.Set[str]) -> bool:
     return True
 
 
+def _mark_value_mutations(trees, sites: typing.List[dict]) -> None:
+    """A memo hands the SAME object to every caller: an attribute store, item store, augmented assignment, setattr or mutator
+    call on an object obtained from a memoised callable / cached property / instance memo changes what later callers get.
+    Retrieval forms recognised:  x = f(..) | x = obj.f(..) | f(..)<.attr..>  for memoised f;  x = obj.<cached property>;
+    x = self.<memo>[k].  (Storing INTO an instance memo is the memo's own operation and is not counted.)"""
+    by_simple: typing.Dict[str, typing.List[dict]] = {}
+    for st in sites:
+        if st['kind'] in ('KLruMethod', 'KLruFunction', 'KCachedProp', 'KInstanceMemo'):
+            by_simple.setdefault(st['name'].split('.')[-1], []).append(st)
+    calls = {n for n, ss in by_simple.items() if any(x['kind'] in ('KLruMethod', 'KLruFunction') for x in ss)}
+    props = {n for n, ss in by_simple.items() if any(x['kind'] == 'KCachedProp' for x in ss)}
+    memos = {n for n, ss in by_simple.items() if any(x['kind'] == 'KInstanceMemo' for x in ss)}
+
+    def retrieval(e: ast.expr) -> typing.Optional[str]:
+        """simple name of the memo this expression reads its value from (None if it is not such a read)"""
+        if isinstance(e, ast.Call):
+            f = e.func
+            n = f.attr if isinstance(f, ast.Attribute) else (f.id if isinstance(f, ast.Name) else None)
+            return n if n in calls else None
+        if isinstance(e, ast.Attribute) and e.attr in props:
+            return e.attr
+        if isinstance(e, ast.Subscript) and isinstance(e.value, ast.Attribute) and e.value.attr in memos:
+            return e.value.attr
+        return None
+
+    def hit(name: str, rel: str, fn: str, what: str) -> None:
+        for st in by_simple.get(name, []):
+            st['value_mutated'] = True
+            st['mutated_at'].append('%s %s: %s' % (rel, fn, what))
+
+    for rel, tree in trees:
+        for fn in [n for n in ast.walk(tree) if isinstance(n, (ast.FunctionDef, ast.AsyncFunctionDef))]:
+            bound: typing.Dict[str, str] = {}
+            for n in ast.walk(fn):
+                if isinstance(n, (ast.Assign, ast.AnnAssign)) and n.value is not None:
+                    r = retrieval(n.value)
+                    tg = n.targets if isinstance(n, ast.Assign) else [n.target]
+                    if r:
+                        for t in tg:
+                            if isinstance(t, ast.Name):
+                                bound[t.id] = r
+                if isinstance(n, ast.With):
+                    for it in n.items:
+                        r = retrieval(it.context_expr)
+                        if r and isinstance(it.optional_vars, ast.Name):
+                            bound[it.optional_vars.id] = r
+
+            def source(e: ast.expr) -> typing.Optional[str]:
+                """memo whose value the object designated by e is (e: the object being written through)"""
+                r = retrieval(e)
+                if r:
+                    return r
+                if isinstance(e, ast.Name):
+                    return bound.get(e.id)
+                if isinstance(e, (ast.Attribute, ast.Subscript)):
+                    return source(e.value)
+                return None
+
+            for n in ast.walk(fn):
+                if isinstance(n, (ast.Assign, ast.AugAssign, ast.AnnAssign, ast.Delete)):
+                    tg = n.targets if isinstance(n, (ast.Assign, ast.Delete)) else [n.target]
+                    for t in tg:
+                        if isinstance(t, (ast.Attribute, ast.Subscript)):
+                            if isinstance(t, ast.Subscript) and isinstance(t.value, ast.Attribute) and t.value.attr in memos \
+                                    and retrieval(t) == t.value.attr:
+                                continue          # self._memo[k] = v : filling the memo
+                            src = source(t.value)
+                            if src:
+                                hit(src, rel, fn.name, 'store to ' + ast.unparse(t))
+                if isinstance(n, ast.Call):
+                    f = n.func
+                    if isinstance(f, ast.Attribute) and f.attr in MUTATORS:
+                        src = source(f.value)
+                        if src:
+                            hit(src, rel, fn.name, 'call ' + ast.unparse(f))
+                    if isinstance(f, ast.Name) and f.id in ('setattr', 'delattr') and n.args:
+                        src = source(n.args[0])
+                        if src:
+                            hit(src, rel, fn.name, ast.unparse(n)[:60])
+
+
 def scan_sites() -> typing.List[dict]:
     root = os.path.join(gen.REPO, 'src', 'nunavut')
     sites: typing.List[dict] = []
@@ -527,8 +608,9 @@ def scan_sites() -> typing.List[dict]:
                 if not _is_container_value(st.value):
                     module_safe.update(t.id for t in tg if isinstance(t, ast.Name))
 
-        def add(name, kind, params=(), flag=False, key=''):
-            sites.append({'file': rel, 'name': name, 'kind': kind, 'params': list(params), 'flag': bool(flag), 'key': key})
+        def add(name, kind, params=(), flag=False, key='', value_mutable=False):
+            sites.append({'file': rel, 'name': name, 'kind': kind, 'params': list(params), 'flag': bool(flag), 'key': key,
+                          'value_mutable': bool(value_mutable), 'value_mutated': False, 'mutated_at': []})
 
         def visit_fn(fn: ast.FunctionDef, cls: typing.Optional[ast.ClassDef]):
             decos = [_deco_name(x) for x in fn.decorator_list]
@@ -545,12 +627,13 @@ def scan_sites() -> typing.List[dict]:
                         params.append((a.arg, 'PSelfByEq' if (cls.name in eq_classes or bases & eq_classes) else 'PSelfIdentity'))
                     else:
                         params.append((a.arg, _annotation_kind(a.annotation)))
+                vm = _annotation_kind(fn.returns) != 'PValue'
                 if is_method:
-                    add(qual, 'KLruMethod', params)
+                    add(qual, 'KLruMethod', params, value_mutable=vm)
                 else:
-                    add(qual, 'KLruFunction', params, flag=_function_pure(fn, module_safe))
+                    add(qual, 'KLruFunction', params, flag=_function_pure(fn, module_safe), value_mutable=vm)
             if 'cached_property' in decos:
-                add(qual, 'KCachedProp')
+                add(qual, 'KCachedProp', value_mutable=_annotation_kind(fn.returns) != 'PValue')
             for n in ast.walk(fn):
                 if isinstance(n, ast.Global):
                     for g in n.names:
@@ -595,6 +678,7 @@ def scan_sites() -> typing.List[dict]:
                 for t in (st.targets if isinstance(st, ast.Assign) else [st.target]):
                     if isinstance(t, ast.Name) and t.id != '__all__':
                         add(t.id, 'KModuleContainer', flag=t.id in mutated)
+    _mark_value_mutations(trees, sites)
     # de-duplicate (a lazy field may be tested in several methods)
     seen, out = set(), []
     for s in sites:
@@ -656,8 +740,11 @@ def gen_sites() -> typing.Tuple[bool, str]:
     rows = []
     for s in sites:
         ps = '; '.join('(%s, %s)' % (_coq_str(n), k) for n, k in s['params'])
-        rows.append('  {| s_file := %s;\n     s_name := %s;\n     s_kind := %s; s_params := [%s]; s_flag := %s;\n     s_key := %s |}'
-                    % (_coq_str(s['file']), _coq_str(s['name']), s['kind'], ps, 'true' if s['flag'] else 'false', _coq_str(s['key'])))
+        rows.append('  {| s_file := %s;\n     s_name := %s;\n     s_kind := %s; s_params := [%s]; s_flag := %s;\n     s_key := %s;\n'
+                    '     s_value_mutable := %s; s_value_mutated := %s%s |}'
+                    % (_coq_str(s['file']), _coq_str(s['name']), s['kind'], ps, 'true' if s['flag'] else 'false', _coq_str(s['key']),
+                       'true' if s['value_mutable'] else 'false', 'true' if s['value_mutated'] else 'false',
+                       (' (* %s *)' % '; '.join(s['mutated_at'])[:200].replace('*)', '* )')) if s['mutated_at'] else ''))
     frows = ['  {| f_lang := %s; f_filter := %s; f_key := %s; f_prefix := %s; f_suffix := %s; f_reg := %s |}'
              % (_coq_str(f['lang']), _coq_str(f['filter']), _coq_str(f['key']), _coq_str(f['prefix']), _coq_str(f['suffix']),
                 'R' + f['registration'].capitalize()) for f in filters]
